@@ -103,7 +103,7 @@ func classify(got, want string) string {
 
 func TestC12(t *testing.T) {
 	ev := vlib.NewEvidence("C12", "exploration",
-		"(pool) the same signed session (registrations, wallet links, billed keep-alives, peer requests, pool_account for linked / never-seen / empty wallets) against a pool on each driver: every reply and error identical, timestamps aside; random operation histories (length 10..60) over node ids {n1..n4,\"\",x:y}, accounts {A,B,\"\"} and (every third history) production-style ids: 128-hex node ids in lower/upper/0x spelling and checksummed wallet addresses sharing a 12-character prefix, amounts {0,±1,±2^64,±10^30,..}; each history runs on the memory and the badger driver and on an executable model of the documented contract; non-trivial = at least 3 successful mutating operations; distinct = distinct operation sequences")
+		"(pool) the same signed session (registrations, wallet links, billed keep-alives, peer requests, pool_account for linked / never-seen / empty wallets) against a pool on each driver: every reply and error identical, timestamps aside; random operation histories (length 10..60) over node ids {n1..n4,\"\",x:y}, accounts {A,B,\"\"} and (every third history) production-style ids: 128-hex node ids in lower/upper/0x spelling and checksummed wallet addresses sharing a 12-character prefix, amounts {0,±1,±2^64,±10^30,..}; each history runs on the memory and the badger driver and on an executable model of the documented contract; non-trivial = at least 3 successful mutating operations; distinct = distinct operation sequences; (faults) links under keep-alive load with a statistics reader on both drivers")
 	ev.Assume("time classes stay ≥10 s away from the 120 s activity window and ≥30 s from the 15 min nonce window; histories taking >5 s wall are discarded as inconclusive")
 	n := vlib.Scale(5000, 150000)
 	alphaDefault, alphaReal := vlib.DefaultAlphabet(), vlib.RealisticAlphabet()
